@@ -7,7 +7,7 @@ class ArrVal:
     def get(s, i): return s.upd[i] if i in s.upd else s.default(i)
     def put(s, i, v): u = dict(s.upd); u[i] = v; return ArrVal(s.default, u)
 
-def ceval(t, env, fp, memo=None):
+def ceval(t, env, fp, memo=None, ufs=None):
     """env: {symbol name: int | ArrVal}; fp(name, rm, args) -> int for the FP UFs.  Returns int (bit-vectors, booleans as 0/1) or ArrVal."""
     memo = {} if memo is None else memo
     stack = [t]
@@ -28,6 +28,7 @@ def ceval(t, env, fp, memo=None):
             elif nm == 'i2d':
                 x = vals[0]; sx = x - (1 << 32) if x >> 31 else x; r = struct.unpack('<Q', struct.pack('<d', float(sx)))[0]
             elif nm in ('fadd', 'fsub', 'fmul', 'fdiv', 'fsqrt'): r = fp(nm, vals[0], vals[1:])
+            elif ufs and nm in ufs: r = ufs[nm](*vals)
             else: raise KeyError('uninterpreted function %s' % nm)
         elif k == z3.Z3_OP_SELECT: r = vals[0].get(vals[1])
         elif k == z3.Z3_OP_STORE: r = vals[0].put(vals[1], vals[2])
